@@ -481,7 +481,96 @@ def check_rescale_mass(lib, spec):
     return ok, {"lrescale_big": l1, "worst_product_error": worst, "scale": scale}
 
 
-CHECKS = {"constructor": check_constructor, "trajectory": check_trajectory, "rescale": check_rescale, "megno": check_megno, "megno_order": check_megno_order, "python_vary": check_python_vary, "multiset": check_multiset, "softening": check_softening, "rescale_mass": check_rescale_mass}
+def var_state(sim):
+    """(lrescale, [m, x..vz of every variational particle]) of every variational configuration, as stored"""
+    out = []
+    for k in range(sim.N_var_config):
+        vc = sim.var_config[k]
+        ps = vc.particles
+        out.append((vc.lrescale, [getattr(p, c) for p in ps for c in ["m"] + C6]))
+    return out
+
+
+def same_state(a, b):
+    import struct
+    bits = lambda v: struct.pack("<d", v)
+    return len(a) == len(b) and all(bits(x[0]) == bits(y[0]) and len(x[1]) == len(y[1]) and
+                                    all(bits(u) == bits(w) for u, w in zip(x[1], y[1])) for x, y in zip(a, b))
+
+
+def check_derived(lib, spec):
+    """DERIVED simulations carry the same tangent vector as the live one: archive snapshots taken before and after automatic
+    rescale events (snapshot 0 before the first rescale), copies and pickles must have bitwise the lrescale and the variational
+    particles of the live simulation at the same time, and the represented vector exp(lrescale)*(m,x..vz)/big must match the
+    factor-1 run (linearity; the factor-1 run itself is checked against finite differences by the trajectory oracle)."""
+    import os, pickle, tempfile, shutil
+    rb = lib.rb
+    d = tempfile.mkdtemp(prefix="c16_derived_")
+    try:
+        runs = {}
+        for big in (1.0, spec["big"]):
+            sim = rb.Simulation()
+            sim.integrator = spec["integrator"]
+            if spec["integrator"] == "whfast":
+                sim.dt = 0.05
+                sim.ri_whfast.safe_mode = spec.get("safe_mode", 1)
+            sim.add(m=1.)
+            sim.add(m=1e-3, a=1., e=0.1)
+            sim.add(m=5e-4, a=spec["a2"], e=0.05, f=1.)
+            nsets = spec["nsets"]
+            for k in range(nsets):
+                v = sim.add_variation()
+                v.vary(1 + k % 2, ["a", "m", "e"][k % 3] if spec["integrator"] != "whfast" else ["a", "e", "lambda"][k % 3])
+                for p in v.particles:
+                    for c in ["m"] + C6:
+                        setattr(p, c, getattr(p, c) * big)
+            path = os.path.join(d, "a_%g.bin" % (1 if big == 1.0 else 2))
+            live, others = [], []
+            nseg = spec["nseg"]
+            for j in range(nseg + 1):
+                if j:
+                    sim.integrate(spec["tmax"] * j / nseg, exact_finish_time=0)
+                    if spec["integrator"] == "whfast":
+                        sim.synchronize()
+                sim.save_to_file(path)
+                live.append((sim.t, var_state(sim)))
+                if j in (nseg // 2, nseg):
+                    others.append((j, "copy", var_state(sim.copy())))
+                    others.append((j, "pickle", var_state(pickle.loads(pickle.dumps(sim)))))
+            runs[big] = (path, live, others)
+        path, live, others = runs[spec["big"]]
+        bad = []
+        sa = rb.Simulationarchive(path)
+        if len(sa) != len(live):
+            bad.append(("snapshots", len(sa), len(live)))
+        for j in range(min(len(sa), len(live))):
+            r = sa[j]
+            if r.t != live[j][0] or not same_state(var_state(r), live[j][1]):
+                bad.append(("snapshot", j, live[j][0], [x[0] for x in var_state(r)], [x[0] for x in live[j][1]]))
+        for j, kind, st in others:
+            if not same_state(st, live[j][1]):
+                bad.append((kind, j))
+        # a rescale must have happened between snapshot 0 and the last one, otherwise the case says nothing
+        rescaled = any(x[0] > 0 for x in live[-1][1]) and all(x[0] == 0 for x in live[0][1])
+        # represented vector of every restored snapshot vs the factor-1 run (restored as well)
+        sa1 = rb.Simulationarchive(runs[1.0][0])
+        lb = math.log(spec["big"])
+        worst = 0.0
+        for j in range(min(len(sa), len(sa1))):
+            for (l1, v1), (l0, v0) in zip(var_state(sa[j]), var_state(sa1[j])):
+                scale = max(abs(x) for x in v0) or 1.0
+                for g, r0 in zip(v1, v0):
+                    val = g * math.exp(l1 - lb) if (g == g and abs(g) != float("inf") and l1 - lb < 700) else float("inf")
+                    worst = max(worst, abs(val - r0 * math.exp(l0)) / scale)
+        ok = not bad and worst <= 1e-8
+        if not rescaled and ok:
+            raise Inconclusive("no automatic rescale happened in this run")
+        return ok, {"mismatches": bad[:4], "worst_represented_error": worst, "lrescale_last": [x[0] for x in live[-1][1]]}
+    finally:
+        shutil.rmtree(d, ignore_errors=True)
+
+
+CHECKS = {"constructor": check_constructor, "trajectory": check_trajectory, "rescale": check_rescale, "megno": check_megno, "megno_order": check_megno_order, "python_vary": check_python_vary, "multiset": check_multiset, "softening": check_softening, "rescale_mass": check_rescale_mass, "derived": check_derived}
 
 
 def pairs_available(lib):
@@ -609,6 +698,14 @@ def search(ctx, rebound, libdir):
         ctx.case(key=(kind,))
         if not ok:
             ctx.violation(key, {"check": kind, "spec": spec, "detail": det}, True, what)
+
+    # (b'') derived simulations: archive snapshots around automatic rescale events, copies, pickles
+    for integ, sm in (("ias15", None), ("whfast", 1), ("whfast", 0), ("leapfrog", None)) * ctx.scale(1, 4):
+        spec = {"integrator": integ, "big": 10 ** rng.uniform(98.5, 99.8), "tmax": rng.uniform(60, 120), "nseg": rng.choice([4, 6, 8]),
+                "nsets": rng.choice([1, 2, 3, 4]), "a2": rng.uniform(1.7, 2.4)}
+        if sm is not None:
+            spec["safe_mode"] = sm
+        do("derived", spec, ("derived", integ) if sm is None else ("derived", integ, "safe_mode=%d" % sm))
 
     # (c) rescaling and chaos indicators
     for integ, sm in (("ias15", None), ("whfast", 1), ("whfast", 0), ("leapfrog", None)):
